@@ -1,8 +1,8 @@
 #!/verif/.venv/bin/python
-# Replay of a counterexample against the real code in /repo/src (exit 1 = violation reproduced).
+# Replay of a counterexample against the real code in /tmp/wt_cards/src (exit 1 = violation reproduced).
 import os, sys
 os.environ.setdefault("NUMBA_DISABLE_JIT", "1")
-sys.path.insert(0, '/repo' + "/src"); sys.path.insert(0, '/verif')
+sys.path.insert(0, '/tmp/wt_cards' + "/src"); sys.path.insert(0, '/verif')
 from fractions import Fraction
 import harness.C40 as H
 try:
